@@ -62,6 +62,10 @@ def ob_clean(cx):
     ignored = [bool(cx.choose("ignored%d" % i, 0, 1)) for i in range(n)]
     isdir = [bool(cx.choose("isdir%d" % i, 0, 1)) for i in range(n)]
     nested = [isdir[i] and bool(cx.choose("nested%d" % i, 0, 1)) for i in range(n)]
+    # a nested branch whose control directory is recognised but cannot be opened by this version (newer / foreign format)
+    unopenable = [nested[i] and bool(cx.choose("unopenable%d" % i, 0, 1)) for i in range(n)]
+    E = cx.real("breezy.errors")
+    open_error = cx.pick("open_error", [E.UnknownFormatError, E.UnsupportedFormatError]) if any(unopenable) else None
     want_unknown = bool(cx.choose("unknown", 0, 1))
     want_ignored = bool(cx.choose("ignored", 0, 1))
     want_detritus = bool(cx.choose("detritus", 0, 1))
@@ -95,6 +99,8 @@ def ob_clean(cx):
         class ControlDir:
             @staticmethod
             def open(p):
+                if unopenable[index_of(p)]:
+                    raise open_error("format of the nested branch")
                 if nested[index_of(p)]:
                     return object()
                 raise cx.real("breezy.errors").NotBranchError("not-a-branch")
@@ -113,8 +119,21 @@ def ob_clean(cx):
             show_warning = staticmethod(lambda *a, **k: None)
     C.ui = UI
     C.note = lambda *a, **k: None
-    C.clean_tree(".", unknown=want_unknown, ignored=want_ignored, detritus=want_detritus, dry_run=dry_run, no_prompt=True)
+    raised = None
+    try:
+        C.clean_tree(".", unknown=want_unknown, ignored=want_ignored, detritus=want_detritus, dry_run=dry_run, no_prompt=True)
+    except (E.UnknownFormatError, E.UnsupportedFormatError) as e:
+        raised = type(e).__name__
     deleted = [i for _op, i in log]
+    hit_unopenable = any(unopenable[i] and ((want_detritus and _ref_detritus(cx, names[i])) or (want_ignored and ignored[i])
+                                             or (want_unknown and not ignored[i])) for i in range(n))
+    if hit_unopenable:
+        # the branch is there, only this version cannot read it: it must not be deleted, and nothing else either
+        cx.require(raised is not None, "a nested branch in a format this version cannot open was treated as a plain directory")
+        cx.require(not log, "clean-tree stopped at an unopenable nested branch but had already deleted something")
+        cx.cover("unopenable_nested_branch")
+        return
+    cx.require(raised is None, "unexpected %s" % raised)
     for i in range(n):
         det = _ref_detritus(cx, names[i])
         selected = (want_detritus and det) or (want_ignored and ignored[i]) or (want_unknown and not ignored[i])
@@ -140,7 +159,7 @@ def obligations(tier):
     q = tier == "quick"
     p = dict(npaths=1 if q else 2)
     return [Ob("clean_tree", ob_clean, [CT], p, 900 if q else 7200, 3 if q else 1,
-               ["deleted", "detritus", "nested_kept", "dry_run"],
+               ["deleted", "detritus", "nested_kept", "dry_run", "unopenable_nested_branch"],
                bounds="<= %(npaths)d unversioned paths with symbolic names (1-2 chars, or 4-6 chars over the letters of the "
-                      "detritus suffixes), each ignored or not, file or directory, nested control dir or not; every "
+                      "detritus suffixes), each ignored or not, file or directory, nested control dir or not (openable or not); every "
                       "combination of --unknown / --ignored / --detritus / --dry-run" % p)]
